@@ -61,6 +61,8 @@ impl Drop for Val {
 }
 
 struct Host {
+    /// unique first bytes: see mock_task::Globals
+    magic: u64,
     wh: u32,
     rh: u32,
     elem_size: usize,
@@ -90,9 +92,13 @@ struct Host {
     user_dropped: u32,
     default_dropped: u32,
     hostval_dropped: u32,
+    fix_v2: bool,
+    deferred_calls: u32,
+    deferred_blocked: bool,
 }
 
 static mut H: Host = Host {
+    magic: 0x6332_305f_686f_7374,
     wh: 0,
     rh: 0,
     elem_size: 1,
@@ -119,6 +125,9 @@ static mut H: Host = Host {
     user_dropped: 0,
     default_dropped: 0,
     hostval_dropped: 0,
+    fix_v2: false,
+    deferred_calls: 0,
+    deferred_blocked: false,
 };
 
 // ---- the "generated" vtable ----------------------------------------------------
@@ -178,8 +187,8 @@ unsafe extern "C" fn v_start_write(h: u32, buf: *const u8) -> u32 {
     assert!(H.delivered == 0, "future.write after the value was already delivered (host traps)");
     H.writes_started += 1;
     H.write_buf = buf;
-    mt::EXPECT_WAITABLE = h;
-    mt::EXPECT_PTR = core::ptr::null_mut(); // a new operation: its own callback pointer
+    mt::G.expect_waitable = h;
+    mt::G.expect_ptr = core::ptr::null_mut(); // a new operation: its own callback pointer
     if H.reader_dropped {
         H.writer_told_dropped = true;
         return DROPPED;
@@ -241,8 +250,8 @@ unsafe extern "C" fn v_start_read(h: u32, buf: *mut u8) -> u32 {
     assert!(H.read_completed == 0, "future.read after the value was already read (host traps)");
     H.reads_started += 1;
     H.read_buf = buf;
-    mt::EXPECT_WAITABLE = h;
-    mt::EXPECT_PTR = core::ptr::null_mut();
+    mt::G.expect_waitable = h;
+    mt::G.expect_ptr = core::ptr::null_mut();
     let ans: u32 = kani::any();
     kani::assume(ans == COMPLETED || ans == BLOCKED);
     if ans == COMPLETED {
@@ -380,9 +389,9 @@ unsafe fn read_event() {
 }
 
 unsafe fn install_task(t1: &mut mt::wasip3_task, t2: &mut mt::wasip3_task_v2) -> *mut mt::wasip3_task {
-    let task: *mut mt::wasip3_task = if kani::any() { t1 } else { (t2 as *mut mt::wasip3_task_v2).cast() };
-    mt::CUR = task;
-    mt::CLONE_DISTINCT = false;
+    let task: *mut mt::wasip3_task = if !H.fix_v2 && kani::any() { t1 } else { (t2 as *mut mt::wasip3_task_v2).cast() };
+    mt::G.cur = task;
+    mt::G.clone_distinct = false;
     task
 }
 
@@ -468,7 +477,7 @@ macro_rules! wsteps {
 }
 
 unsafe fn finish_write(end: WEnd, held: u32, wrote: bool) {
-    mt::OP_ALIVE = false;
+    mt::G.op_alive = false;
     mt::assert_quiescent();
     assert!(!H.write_in_progress);
     if H.writer_handed_back {
@@ -590,8 +599,6 @@ c20w!(c20_deep_rawwrite_ppc, VT1, 1, alloc_one_byte, [P P C], cw_ppc);
 // therefore outside the claim; *when* a default value is written, with which
 // value, and that the writable end is only released afterwards, is inside.
 
-static mut DEFERRED_CALLS: u32 = 0;
-static mut DEFERRED_BLOCKED: bool = false;
 
 /// Harness-driven equivalent of `DeferredWrite`: start the write and poll it;
 /// if it blocks, the host's completion event is delivered (here, i.e. before
@@ -599,15 +606,15 @@ static mut DEFERRED_BLOCKED: bool = false;
 /// `DeferredWrite::wake` would; its result is dropped.
 fn stub_write_and_forget<O: FutureOps + 'static>(this: RawFutureWriter<O>, value: O::Payload) {
     unsafe {
-        DEFERRED_CALLS += 1;
-        assert!(DEFERRED_CALLS == 1, "more than one deferred write for one future");
+        H.deferred_calls += 1;
+        assert!(H.deferred_calls == 1, "more than one deferred write for one future");
         let mut cx = Context::from_waker(Waker::noop());
         let mut f = pin!(this.write(value));
         match f.as_mut().poll(&mut cx) {
             Poll::Ready(r) => drop(r),
             Poll::Pending => {
                 pending_is_registered();
-                DEFERRED_BLOCKED = true;
+                H.deferred_blocked = true;
                 write_event();
                 match f.as_mut().poll(&mut cx) {
                     Poll::Ready(r) => drop(r),
@@ -620,6 +627,7 @@ fn stub_write_and_forget<O: FutureOps + 'static>(this: RawFutureWriter<O>, value
 
 unsafe fn typed_setup(t1: &mut mt::wasip3_task, t2: &mut mt::wasip3_task_v2) -> FutureWriter<Val> {
     H.elem_size = 1;
+    H.fix_v2 = true; // the typed scenarios are the expensive ones: task C ABI v2 only (what the in-tree executor provides)
     let _task = install_task(t1, t2);
     let (tx, rx) = future_new(default_val, &VT1);
     rx.take_handle();
@@ -697,13 +705,17 @@ fn c20_typed_write_dropped_midflight() {
     }
 }
 
-/// `FutureWrite::cancel()` and then the returned `FutureWriter` dropped.
+/// `FutureWrite::cancel()` (typed): the outcome is mapped faithfully; when
+/// the write is cancelled the value *and a live `FutureWriter`* come back.  The
+/// harness keeps that writer (`mem::forget`): dropping an unwritten
+/// `FutureWriter` is `c20_typed_writer_dropped_unwritten`'s scenario (doing
+/// both in one harness runs CBMC out of its 12 GB cap).
 #[kani::proof]
 #[kani::unwind(3)]
 #[kani::stub(wit_bindgen::rt::async_support::cabi::wasip3_task_set, crate::mock_task::stub_task_set)]
 #[kani::stub(wit_bindgen::rt::async_support::RawFutureWriter::write_and_forget, stub_write_and_forget)]
 #[kani::stub(std::alloc::alloc, alloc_one_byte)]
-fn c20_typed_cancel_then_drop_writer() {
+fn c20_typed_cancel() {
     unsafe {
         let mut t1 = mt::new_v1_a();
         let mut t2 = mt::new_v2_a();
@@ -730,14 +742,16 @@ fn c20_typed_cancel_then_drop_writer() {
                         FutureWriteCancel::Cancelled(v, w) => {
                             take_back(v, &mut held);
                             end = WEnd::CancelCancelled;
-                            drop(w); // unwritten writer: must deliver the default value
+                            H.writer_handed_back = true;
+                            core::mem::forget(w);
                         }
                     }
                 }
             }
         }
+        assert!(H.deferred_calls == 0, "cancel() itself must not write a default value");
         finish_write(end, held, true);
-        kani::cover!(end == WEnd::CancelCancelled && H.delivered == 1 && H.delivered_val == DEFAULT, "cancelled; returned writer dropped; default delivered");
+        kani::cover!(end == WEnd::CancelCancelled, "cancel(): cancelled, value and writer handed back");
         kani::cover!(end == WEnd::CancelAlreadySent, "cancel(): already sent");
         kani::cover!(end == WEnd::CancelDropped, "cancel(): reader dropped");
     }
@@ -790,7 +804,7 @@ macro_rules! rsteps {
 }
 
 unsafe fn finish_read(end: REnd, held: u32) {
-    mt::OP_ALIVE = false;
+    mt::G.op_alive = false;
     mt::assert_quiescent();
     assert!(!H.read_in_progress, "read future gone but the host still has a read in progress");
     assert!(H.drop_readable_calls == 1, "readable end must be dropped exactly once");
